@@ -2,6 +2,8 @@ import AdbModel
 import Driver.Util
 import Driver.Session
 import Driver.Conc
+import Driver.Keys
+import Driver.Tcp
 /-
   Model driver: one request per line on stdin, one reply line per request on stdout.
   The Python harness sends the same operations to the real implementation and diffs.
@@ -102,6 +104,8 @@ def step (st : DState) (line : String) : DState × String :=
   match tokens line with
   | "codec" :: rest => (st, stepCodec rest)
   | "store" :: rest => stepStore st rest
+  | "tcp" :: rest => (st, stepTcp rest)
+  | "keys" :: rest => (st, stepKeys rest)
   | "conc" :: rest => let (c', out) := stepConc st.conc rest; ({ st with conc := c' }, out)
   | "sess" :: rest => let (s', out) := stepSess st.sess rest; ({ st with sess := s' }, out)
   | _ => (st, "bad-op")
